@@ -79,9 +79,18 @@ def gen_regclass(rng, idx):
 def gen_spec(rng, lay):
     """what sits in one word: word / memword / register class"""
     r = rng.random()
-    if r < 0.15:
+    if r < 0.12:
         return {"k": "word", "variant": rng.choice(["Word", "UWord", "SWord"])}
-    if r < 0.45:
+    if r < 0.34 and not lay.get("no_io"):
+        # reg32.Output / reg32.Input: a hardware signal of `width` bits at bit `off` of the word
+        # (lsbs / msbs / explicit offset+padding / full width), widths and offsets cross byte lanes
+        width = rng.choice([1, 3, 4, 7, 8, 8, 9, 12, 16, 20, 24, 31, 32])
+        mode = "full" if width == 32 else rng.choice(["lsbs", "msbs", "explicit", "explicit"])
+        off = {"lsbs": 0, "msbs": 32 - width, "full": 0}.get(mode)
+        if off is None:
+            off = rng.randint(0, 32 - width)
+        return {"k": rng.choice(["output", "output", "input"]), "width": width, "off": off, "mode": mode}
+    if r < 0.5:
         return {"k": "memword", "variant": rng.choice(["MemWord", "MemWord", "MemUWord", "MemSWord"]),
                 "default": rng.choice([0, 0, rng.randrange(1 << 31)])}
     if lay["regclasses"] and rng.random() < 0.5:
@@ -120,7 +129,13 @@ def gen_members(rng, lay, words, depth, budget):
                 continue
             nodes.append({"t": "file", "name": name, "off": cur * 4, "words": w, "members": sub})
             cur += w
-        elif r < 0.52 and room >= 1:
+        elif r < 0.46 and room >= 1 and not lay.get("no_io"):
+            w = rng.randint(1, min(4, room))
+            nodes.append({"t": "memory", "name": name, "off": cur * 4, "words": w, "inline": True,
+                          "mode": rng.choice(["IMMEDIATE", "IMMEDIATE", "SPLIT_WORDS"])})
+            budget[0] -= 1
+            cur += w
+        elif r < 0.56 and room >= 1:
             w = rng.randint(1, min(6, room))
             nodes.append({"t": "range", "name": name, "off": cur * 4, "words": w, "tag": rng.randrange(1 << 32),
                           "access": rng.choice(["rw", "rw", "rw", "ro", "wo"])})
@@ -144,7 +159,7 @@ def gen_spine(rng, lay, depth_left, budget, decode_only):
         nonlocal cur
         name = f"m{lay['counter']}"
         lay["counter"] += 1
-        kind = force or rng.choice(["reg", "reg", "arr", "range"] + (["memory"] if decode_only else []))
+        kind = force or rng.choice(["reg", "reg", "arr", "range"] + (["memory"] if decode_only or not lay.get("no_io") else []))
         if kind == "arr" and budget[0] >= 2:
             n = rng.randint(2, min(3, budget[0]))
             step = rng.choice([1, 1, 2])
@@ -160,8 +175,9 @@ def gen_spine(rng, lay, depth_left, budget, decode_only):
             budget[0] -= 1
             cur += w
         elif kind == "memory":
-            w = rng.choice([1, 2, 3, 4, 5, 7])
-            nodes.append({"t": "memory", "name": name, "off": cur * 4, "words": w})
+            w = rng.choice([1, 2, 3, 4, 5, 7]) if decode_only else rng.choice([1, 2, 3])
+            nodes.append({"t": "memory", "name": name, "off": cur * 4, "words": w, "inline": not decode_only,
+                          "mode": rng.choice(["IMMEDIATE", "IMMEDIATE", "SPLIT_WORDS"])})
             budget[0] -= 1
             cur += w
         else:
@@ -199,6 +215,8 @@ def gen_layout(rng, max_regs=9, aw=None, wrapper=None, deep=None, decode_only=Fa
     None = the general generator (nesting up to 3, offsets often zero)"""
     lay = {"reset": rng.choice(["low", "low", "high", "none"]), "regclasses": [], "counter": 0,
            "wrapper": wrapper or "base_entity"}
+    if lay["wrapper"] != "base_entity":
+        lay["no_io"] = True      # Output / Input / Memory need a _config_ hook with the entity's ports
     if deep:
         while True:
             lay["regclasses"], lay["counter"] = [], 0
@@ -258,7 +276,7 @@ def flat_regs(lay):
                             "off": n["off"], "n": 1, "step": 0, "first": True, "node": n})
             elif n["t"] == "memory":
                 out.append({"path": f"{path}.{n['name']}", "offset": base + n["off"], "bytes": 4 * n["words"],
-                            "spec": {"k": "range", "tag": 0, "access": "rw", "memory": True}, "chain": list(chain),
+                            "spec": {"k": "memory", "mode": n.get("mode", "IMMEDIATE"), "inline": n.get("inline", False)}, "chain": list(chain),
                             "off": n["off"], "n": 1, "step": 0, "first": True, "node": n})
             else:
                 walk(n["members"], chain + [n["off"]], f"{path}.{n['name']}")
@@ -276,6 +294,14 @@ def reg_desc(lay, fr):
     elif sp["k"] == "memword":
         d["kind"] = 1
         d["dflt"] = sp["default"]
+    elif sp["k"] == "output":
+        d["kind"], d["readable"] = 4, 0
+        d["mem"] = ((1 << sp["width"]) - 1) << sp["off"]
+    elif sp["k"] == "input":
+        d["kind"], d["writable"] = 5, 0
+        d["hw"] = ((1 << sp["width"]) - 1) << sp["off"]
+    elif sp["k"] == "memory":
+        d["kind"] = 6
     elif sp["k"] == "range":
         d["kind"] = 3
         d["tag"] = sp["tag"]
@@ -335,6 +361,10 @@ def spec_type(lay, sp):
         return f"reg32.{sp['variant']}"
     if sp["k"] == "memword":
         return f"reg32.{sp['variant']}"
+    if sp["k"] == "output":
+        return "reg32.Output"
+    if sp["k"] == "input":
+        return "reg32.Input"
     return lay["regclasses"][sp["cls"]]["name"]
 
 
@@ -413,9 +443,25 @@ def gen_source(lay):
             dv = fr["spec"]["default"]
             arg = f'"{dv:032b}"' if fr["spec"]["variant"] == "MemWord" else str(dv)
             L.append(f"        {fr['path']}._config_({arg})")
+        elif fr["spec"]["k"] in ("output", "input"):
+            sp = fr["spec"]
+            port = f"ent.o_{j}" if sp["k"] == "output" else f"ent.hw_{j}"
+            kw = {"lsbs": ", lsbs=True", "msbs": ", msbs=True", "full": "",
+                  "explicit": f", offset={sp['off']}, padding={32 - sp['width'] - sp['off']}"}[sp["mode"]]
+            L.append(f"        {fr['path']}._config_({port} if ent is not None else Signal[BitVector[{sp['width']}]](){kw})")
+        elif fr["spec"]["k"] == "memory" and fr["spec"]["inline"]:
+            L.append(f"        {fr['path']}._config_(Null, inline=True, mask_mode=reg32.Memory.MaskMode.{fr['spec']['mode']})")
     conc, seq, ports = [], [], []
     for j, fr in enumerate(frs):
         p, sp = fr["path"], fr["spec"]
+        if sp["k"] == "output":
+            ports.append(f"    o_{j} = Port.output(BitVector[{sp['width']}], default=Null)")
+            continue
+        if sp["k"] == "input":
+            ports.append(f"    hw_{j} = Port.input(BitVector[{sp['width']}])")
+            continue
+        if sp["k"] == "memory":
+            continue
         ports.append(f"    o_{j} = Port.output(BitVector[32])")
         if sp["k"] == "word":
             ports.append(f"    hw_{j} = Port.input(BitVector[32])")
@@ -424,8 +470,6 @@ def gen_source(lay):
             conc.append(f"e.o_{j} <<= {p}.raw")
         elif sp["k"] == "memword":
             conc.append(f"e.o_{j} <<= {p}.raw")
-        elif sp["k"] == "range" and sp.get("memory"):
-            pass    # decode-only layouts (never compiled)
         elif sp["k"] == "range":
             ports.append(f"    a_{j} = Port.output(Unsigned[{aw}])")
             conc.append(f"e.o_{j} <<= {p}.last_data")
@@ -553,6 +597,46 @@ def gen_scenario(rng, lay, n_phases=None, size=None):
     return {"start_reset": rng.randint(0, 2) if lay["reset"] != "none" else 0, "phases": phases}
 
 
+def gen_sweep(rng, lay):
+    """the strobe sweep: for EVERY register object of the layout (writable or not) a full write followed by
+    writes with ALL 16 strobe patterns (shuffled, random data), each followed by a read of the same address, issued
+    strictly one after the other; finally the same at an unmapped address.  Every register-backed output is compared
+    after every clock, so a byte lane that changes without its strobe (or keeps its value with it) shows at the
+    completing clock of that write."""
+    frs = flat_regs(lay)
+    writes, reads = [], []
+    hw = [{"clk": 0, "reg": j, "what": "hw", "val": rng.randrange(1 << 32) | 0x01010101} for j in range(len(frs))]
+    seq = [0]
+
+    def w(a, dv, sb):
+        writes.append({"addr": a, "data": dv, "strb": sb, "ga": 0, "gw": rng.choice([0, 0, 1]), "seq": seq[0]})
+        seq[0] += 1
+
+    def r(a):
+        reads.append({"addr": a, "g": 0, "seq": seq[0]})
+        seq[0] += 1
+
+    mapped = set()
+    for fr in frs:
+        mapped |= set(range(fr["offset"], fr["offset"] + fr["bytes"]))
+    targets = [fr["offset"] + 4 * rng.randrange(fr["bytes"] // 4) for fr in frs]
+    unmapped = [a for a in range(0, 1 << lay["aw"], 4) if a not in mapped]
+    if unmapped:
+        targets.append(rng.choice(unmapped))
+    for a in targets:
+        w(a, rng.choice([M32, rng.randrange(1 << 32) | 0x81818181]), 15)
+        r(a)
+        strobes = list(range(16))
+        rng.shuffle(strobes)
+        for sb in strobes:
+            w(a, rng.randrange(1 << 32), sb)
+            r(a)
+    T = 8 + 8 * (len(writes) + len(reads))
+    ph = {"writes": writes, "reads": reads, "serial": True, "bready": rng.choice([[1], [1], [0, 1]]), "rready": rng.choice([[1], [1], [1, 0]]),
+          "hw": hw, "idle_payload": [rng.randrange(1 << 32) for _ in range(4)], "clocks": T, "idle_after": 1, "reset_after": 0}
+    return {"start_reset": 1 if lay["reset"] != "none" else 0, "phases": [ph], "sweep": True}
+
+
 class _Chan:
     """one master-driven channel: valid is asserted after the transaction's gap and held, with stable payload,
     until the slave's ready is seen at a rising edge"""
@@ -562,9 +646,10 @@ class _Chan:
         self.idx = 0
         self.active = False
         self.wait = items[0][0] if items else 0
+        self.allowed = len(items)       # serial phases release the transactions one by one
 
     def drive(self):
-        if not self.active and self.idx < len(self.items):
+        if not self.active and self.idx < min(len(self.items), self.allowed):
             if self.wait == 0:
                 self.active = True
             else:
@@ -593,8 +678,10 @@ def has_port(lay, j, fr):
         return (False,) * 5
     if sp["k"] == "word":
         return (True, False, False, False, False)
-    if sp["k"] == "memword":
+    if sp["k"] in ("memword", "output", "memory"):
         return (False,) * 5
+    if sp["k"] == "input":
+        return (True, False, False, False, False)
     if sp["k"] == "range":
         return (False, False, False, False, True)
     rc = lay["regclasses"][sp["cls"]]
@@ -639,7 +726,17 @@ def simulate(task):
         out = [fmt(v) for v in head]
         if compare_regs:
             for j, pp in enumerate(ports):
-                out += [fmt(d.get(f"o_{j}")), fmt(d.get(f"n_{j}")) if pp[2] else "0", fmt(d.get(f"a_{j}")) if pp[4] else "0"]
+                sp = frs[j]["spec"]
+                if sp["k"] == "output":
+                    v = d.get(f"o_{j}")
+                    cur = fmt(None if v is None else v << sp["off"])
+                elif sp["k"] == "input":
+                    cur = str(hwv[j] & (((1 << sp["width"]) - 1) << sp["off"]))
+                elif sp["k"] == "memory":
+                    cur = "0"       # content is observable through reads only
+                else:
+                    cur = fmt(d.get(f"o_{j}"))
+                out += [cur, fmt(d.get(f"n_{j}")) if pp[2] else "0", fmt(d.get(f"a_{j}")) if pp[4] else "0"]
         return " ".join(out)
 
     def clock(rst, awv, awaddr, wv, wdata, wstrb, bready, arv, araddr, rready, clr, nclr):
@@ -653,7 +750,8 @@ def simulate(task):
         d.set("axi_rready", rready)
         for j, pp in enumerate(ports):
             if pp[0]:
-                d.set(f"hw_{j}", hwv[j])
+                sp = frs[j]["spec"]
+                d.set(f"hw_{j}", (hwv[j] >> sp["off"]) & ((1 << sp["width"]) - 1) if sp["k"] == "input" else hwv[j])
             if pp[1]:
                 d.set(f"clr_{j}", clr[j])
             if pp[3]:
@@ -683,7 +781,12 @@ def simulate(task):
         k = 0
         limit = ph["clocks"] + 40
         mon_base = dict(mon)
+        order = sorted([(w["seq"], "w") for w in ph["writes"]] + [(r["seq"], "r") for r in ph["reads"]]) if ph.get("serial") else None
         while k < limit:
+            if order is not None:
+                rel = [o[1] for o in order[: nB + nR + 1]]
+                aw_ch.allowed = w_ch.allowed = rel.count("w")
+                ar_ch.allowed = rel.count("r")
             done = aw_ch.done() and w_ch.done() and ar_ch.done() and nB == len(ph["writes"]) and nR == len(ph["reads"])
             if done and k >= min(ph["clocks"], 6):
                 break
@@ -1262,7 +1365,17 @@ def probes():
     # declared: m4 @ 16+8+4+4 = 32, m5[0] @ 36, m5[1] @ 40; 12 / 16 / 20 / 24 are unmapped
     s4 = {"start_reset": 1, "phases": [_phase(writes=[(32, 0x11111111, 15), (40, 0x22222222, 15), (16, 0x33333333, 15), (12, 0x44444444, 15)],
                                               reads=[32, 36, 40, 16, 12, 20, 24])]}
-    return [("strobes", p1, s1), ("array-in-file", p2, s2), ("access", p3, s3), ("deep-nesting", p4, s4)]
+    # every reg32.Output placement: lsbs, msbs, explicit (crossing byte lanes), full width; an Input; an inline Memory
+    import random as _random
+    p5 = dict(base, regclasses=[], root=[
+        {"t": "reg", "name": "m0", "off": 0, "spec": {"k": "output", "width": 8, "off": 0, "mode": "lsbs"}},
+        {"t": "reg", "name": "m1", "off": 4, "spec": {"k": "output", "width": 8, "off": 24, "mode": "msbs"}},
+        {"t": "reg", "name": "m2", "off": 8, "spec": {"k": "output", "width": 12, "off": 6, "mode": "explicit"}},
+        {"t": "reg", "name": "m3", "off": 12, "spec": {"k": "output", "width": 32, "off": 0, "mode": "full"}},
+        {"t": "reg", "name": "m4", "off": 16, "spec": {"k": "input", "width": 9, "off": 20, "mode": "explicit"}},
+        {"t": "memory", "name": "m5", "off": 24, "words": 2, "inline": True, "mode": "IMMEDIATE"}])
+    s5 = gen_sweep(_random.Random(20), p5)
+    return [("strobes", p1, s1), ("array-in-file", p2, s2), ("access", p3, s3), ("deep-nesting", p4, s4), ("io-strobe-sweep", p5, s5)]
 
 
 # ------------------------------------------------------------------------------------------------
@@ -1282,7 +1395,10 @@ def run(ctx: Ctx):
                 "master (per-channel gaps, AW/W order, back-to-back, partial strobes, unmapped and unaligned addresses, random READY "
                 "patterns, hardware-side field updates and flag clears, mid-run reset).  One case = (layout, scenario); non-trivial = "
                 "at least one write and one read and >= 3 transactions; distinct = distinct (layout, scenario).  Decode tie: one case "
-                "per layout, all 2^aw addresses.")
+                "per layout, all 2^aw addresses.  Register objects also include reg32.Output / reg32.Input (1..32 bit signals, lsbs / msbs / "
+                "explicit offset+padding, crossing byte lanes) and inline reg32.Memory (IMMEDIATE / SPLIT_WORDS); every compiled layout "
+                "additionally gets the strobe sweep: all 16 WSTRB patterns on every register object and on an unmapped address, each "
+                "write followed by a read, strictly serial.")
     # ---- A. decode tie (no compile)
     decode_tie(ctx, ctx.scale(60, 400))
 
@@ -1304,7 +1420,7 @@ def run(ctx: Ctx):
             for fr in flat_regs(lay):
                 if fr["spec"]["k"] == "memword":
                     fr["spec"]["default"] = 0      # no _config_ hook on this wrapper
-        lays.append((f"random:{i}", lay, [gen_scenario(rng, lay) for _ in range(n_scn)]))
+        lays.append((f"random:{i}", lay, [gen_sweep(rng, lay)] + [gen_scenario(rng, lay) for _ in range(n_scn)]))
     srcs = [gen_source(lay) for _, lay, _ in lays]
     compiled = compile_many([(s, "E") for s in srcs])
     tasks, meta = [], []
@@ -1357,7 +1473,7 @@ def run(ctx: Ctx):
             mism += 1
         if res["errors"] or k is not None:
             n_rep = reported_layouts.get(origin, 0)
-            if n_rep < 2 and sum(reported_layouts.values()) < ctx.scale(5, 12):
+            if n_rep < 2 and sum(reported_layouts.values()) < ctx.scale(3, 10):
                 reported_layouts[origin] = n_rep + 1
                 report_failure(ctx, t[0], lay, scn, src, origin)
     ctx.obligation("correspondence: emitted AXI4-Lite register-map designs = Lean model C20.step per clock (five channels, register-backed "
